@@ -8,7 +8,7 @@ CONSTANTS
  PathsOf = {}
  PerCont = {}
  MaxExpire = 0
- MaxFire = 0
  MaxKill = 0
  MaxPad = 0
+ SymFirst = FALSE
  Defects = {}
